@@ -22,11 +22,15 @@ base = Path(tempfile.mkdtemp(prefix="par_run_", dir="/tmp"))
 
 
 def one(d):
-    meta = json.loads((d / "meta.json").read_text())
+    meta = json.loads((d / "meta.json").read_text()) if (d / "meta.json").exists() else {"property": d.name.split("-")[0]}
     prop = meta["property"]
     w = base / d.name
     ev = base / (d.name + ".ev")
-    subprocess.run(["git", "-C", R, "worktree", "add", "-q", "--detach", str(w), "HEAD"], capture_output=True)
+    for _try in range(5):
+        if subprocess.run(["git", "-C", R, "worktree", "add", "-q", "--detach", str(w), "HEAD"], capture_output=True).returncode == 0 and w.exists():
+            break
+        import time as _t
+        _t.sleep(0.5 + _try)          # concurrent `worktree add`s contend for .git/worktrees
     try:
         ap = subprocess.run(["git", "apply", str(d / "patch.diff")], cwd=w, capture_output=True, text=True)
         if ap.returncode != 0:
